@@ -42,9 +42,9 @@ class ParseShape(Obligation):
     def post(self, ip, p, res):
         s, r = res
         ctx = ip.ctx
-        if variant_of(ip, r) == 0:
+        name = self.accepted(ip, r)
+        if name is None:
             return [Cover('rejected path')]
-        name = r.payload[1][0]
         P = fld(ctx, name, self.ty, 'project_id').normalised()
         T = fld(ctx, name, self.ty, self.idf).normalised()
         lp, lt, ls = P.len_t(), T.len_t(), s.len_t()
@@ -65,10 +65,27 @@ class ParseShape(Obligation):
         out.append(Cover('accepted minimal name (1-char project, 1-char id)', z3.And(lp == 1, lt == 1)))
         return out
 
+    def accepted(self, ip, r):
+        return None if variant_of(ip, r) == 0 else r.payload[1][0]
+
     def model_info(self, p, m, res):
         if not res:
             return {}
         return {'input': str_model(m, res[0])}
+
+
+class ApiParseShape(ParseShape):
+    """the same shape claim at the entry every handler uses: api::parser::parse_topic_name / parse_subscription_name"""
+
+    def __init__(self, ctx, kind, cap):
+        ParseShape.__init__(self, ctx, kind, cap)
+        fn_name = 'parse_topic_name' if kind == 'topic' else 'parse_subscription_name'
+        self.id = 'C18.a-api-' + kind
+        self.desc = 'api::parser::%s (what every handler calls) accepts s only if s = "projects/" P "%s" ID with P slash-free, P and ID non-empty' % (fn_name, self.seg.decode())
+        self.fn = ctx.free_fn(fn_name)
+
+    def accepted(self, ip, r):
+        return r.payload[0][0] if variant_of(ip, r, (0, 1)) == 0 else None
 
 
 class Echo(Obligation):
@@ -167,6 +184,9 @@ def native_replay(ob_id, v):
     kind = 'topic' if ob_id.endswith('topic') else 'subscription'
     if ob_id.startswith('C18.c'):
         return None
+    if '-api-' in ob_id or ob_id.startswith('C17.f'):
+        # the api parser is private to the crate: replayed through the gRPC surface (CreateTopic / GetSubscription with the raw name)
+        return {'judge': 'api_names', 'kind': kind, 'scenario': 'api_parse_name:%s:%s' % (kind, s.encode('utf-8').hex())}
     return {'judge': 'names', 'kind': kind, 'ops': [{'op': 'parse_name', 'kind': kind, 'bytes': list(s.encode('utf-8'))}]}
 
 
@@ -214,4 +234,5 @@ _obligations_c18 = obligations
 
 
 def obligations(ctx, cfg):
-    return _obligations_c18(ctx, cfg) + [InProject(ctx, 'topic'), InProject(ctx, 'subscription')]
+    cap = 22 if cfg['tier'] == 'quick' else 32
+    return _obligations_c18(ctx, cfg) + [InProject(ctx, 'topic'), InProject(ctx, 'subscription'), ApiParseShape(ctx, 'topic', cap), ApiParseShape(ctx, 'subscription', cap + 7)]
